@@ -155,7 +155,7 @@ def run(ctx):
     if q:
         legs = [(1, "MCPageTables1Quick", 0), (2, "MCPageTables2Quick", 0)]
     else:
-        legs = [(1, "MCPageTables1Full", 0), (2, "MCPageTables2Full", 0)]
+        legs = [(1, "MCPageTables1Quick", 0), (1, "MCPageTables1Full", 0), (2, "MCPageTables2Full", 0)]
     for ib, cfg, _ in legs:
         raw = os.path.join(ctx.work, "c04_raw_%s.ndjson" % cfg)
         ctx.model_check(d, "MCPageTables", cfg, env={"CASES": raw}, timeout=1500, workers=1 if q else 8)
